@@ -22,6 +22,7 @@ import (
 	"github.com/prometheus/alertmanager/marker"
 	"github.com/prometheus/alertmanager/notify"
 	"github.com/prometheus/alertmanager/provider/mem"
+	"github.com/prometheus/alertmanager/timeinterval"
 	"github.com/prometheus/alertmanager/verifhook"
 
 	"verif/harness/pbt"
@@ -42,12 +43,15 @@ type c06Step struct {
 }
 
 type c06Scenario struct {
-	GroupWait     int       `json:"group_wait"`
-	GroupInterval int       `json:"group_interval"`
-	Maint         int       `json:"maint"` // dispatcher maintenance interval (seconds)
-	Limit         int       `json:"limit"` // aggregation group limit (0 = none); with two group keys a limit of 3 must never bind (the count includes destroyed groups awaiting the sweep, at most one per key)
-	Park          []string  `json:"park"`  // hook points at which goroutines park
-	Steps         []c06Step `json:"steps"`
+	GroupWait     int `json:"group_wait"`
+	GroupInterval int `json:"group_interval"`
+	Maint         int `json:"maint"` // dispatcher maintenance interval (seconds)
+	Limit         int `json:"limit"` // aggregation group limit (0 = none); with two group keys a limit of 3 must never bind (the count includes destroyed groups awaiting the sweep, at most one per key)
+	// Muted: the route carries a mute time interval that always matches, the pipeline starts with the real
+	// TimeActiveStage/TimeMuteStage: every flush is muted and must leave the group marked as muted (C15Schedule)
+	Muted bool      `json:"muted,omitempty"`
+	Park  []string  `json:"park"` // hook points at which goroutines park
+	Steps []c06Step `json:"steps"`
 }
 
 var c06Points = []string{"group.loaded", "group.created", "maint.destroyed", "maint.deleted", "flush.notified"}
@@ -126,7 +130,15 @@ func execC06(sc c06Scenario) (res pbt.Result) {
 			return ctx, as, nil
 		})
 		dm := dispatch.NewDispatcherMetrics(false, reg, featurecontrol.NoopFlags{})
-		disp := dispatch.NewDispatcher(alerts, dispatch.NewRoute(cr, nil), stage, marker.NewGroupMarker(), func(d time.Duration) time.Duration { return d },
+		gm := marker.NewGroupMarker()
+		var pipeline notify.Stage = stage
+		if sc.Muted {
+			cr.MuteTimeIntervals = []string{"always"}
+			intervener := timeinterval.NewIntervener(map[string][]timeinterval.TimeInterval{"always": {{}}})
+			nm := notify.NewMetrics(prometheus.NewRegistry(), featurecontrol.NoopFlags{})
+			pipeline = notify.MultiStage{notify.NewTimeActiveStage(intervener, gm, nm), notify.NewTimeMuteStage(intervener, gm, nm), stage}
+		}
+		disp := dispatch.NewDispatcher(alerts, dispatch.NewRoute(cr, nil), pipeline, gm, func(d time.Duration) time.Duration { return d },
 			time.Duration(sc.Maint)*time.Second, c06Limits(sc.Limit), nopLog, eventrecorder.NopRecorder(), dm, nil)
 
 		parkAt := map[string]bool{}
@@ -137,7 +149,15 @@ func execC06(sc c06Scenario) (res pbt.Result) {
 		var parked []*c06Parked
 		seq := 0
 		draining := false
+		created := map[string]time.Time{} // group key -> creation instant of its latest incarnation
 		verifhook.Set(func(name string, arg any) {
+			if name == "group.created" {
+				if g, ok := arg.(interface{ GroupKey() string }); ok {
+					mtx.Lock()
+					created[g.GroupKey()] = time.Now()
+					mtx.Unlock()
+				}
+			}
 			mtx.Lock()
 			if !parkAt[name] || draining {
 				mtx.Unlock()
@@ -215,12 +235,39 @@ func execC06(sc c06Scenario) (res pbt.Result) {
 		for release(0) {
 		}
 		synctest.Wait()
+		// muted mode: a live group whose first flush is due has been muted at its last flush and must say so
+		checkMuted := func(when string) {
+			if !sc.Muted {
+				return
+			}
+			t := time.Now()
+			gs, _, _ := disp.Groups(context.Background(), func(*dispatch.Route) bool { return true }, func(*alert.Alert, time.Time) bool { return true })
+			for _, g := range gs {
+				firing := false
+				for _, a := range g.Alerts {
+					if a.EndsAt.After(t) {
+						firing = true
+					}
+				}
+				mtx.Lock()
+				c, known := created[g.GroupKey]
+				mtx.Unlock()
+				if !firing || !known || c.Add(time.Duration(sc.GroupWait)*time.Second+time.Millisecond).After(t) {
+					continue
+				}
+				if by, ok := gm.Muted(g.RouteID, g.GroupKey); !ok || len(by) == 0 {
+					res.Add(pbt.V("marker-not-muted", "%s (%s): group %s (created %s, group_wait %ds) holds firing alerts, every flush of its route is muted by the interval \"always\", but the group marker reports it as not muted (%v)", when, t.Format("15:04:05.000"), g.GroupKey, c.Format("15:04:05.000"), sc.GroupWait, by))
+				}
+			}
+		}
+		checkMuted("right after everything was released")
 		// let every group flush and the maintenance sweep run
 		settle := time.Duration(sc.GroupWait+sc.GroupInterval+2) * time.Second
 		drainAt := time.Now()
 		time.Sleep(settle)
 		synctest.Wait()
 		now := time.Now()
+		checkMuted("after settling")
 
 		groups, _, err := disp.Groups(context.Background(), func(*dispatch.Route) bool { return true }, func(*alert.Alert, time.Time) bool { return true })
 		if err != nil {
